@@ -360,6 +360,8 @@ type c05UK struct {
 	k int
 }
 
+func (uk c05UK) String() string { return fmt.Sprintf("(%q,K%d)", uk.u, uk.k+1) }
+
 func c05Run(c c05Case, v *vlib.Verdict) {
 	restore := verifAuthzInstallThunks(func() time.Time { return verifAuthzT0 })
 	defer restore()
@@ -390,6 +392,19 @@ func c05Run(c c05Case, v *vlib.Verdict) {
 		}
 		return n
 	}
+	// nearGrant: an unconsumed grant for the same key exists for a DIFFERENT account whose name is a
+	// near-collision (case, trailing blank, NUL suffix, long s) of uk's - while none exists for uk itself.
+	nearGrant := func(uk c05UK) bool {
+		if grants[uk] > 0 {
+			return false
+		}
+		for o, cnt := range grants {
+			if cnt > 0 && o.k == uk.k && verifAuthzNear(o.u, uk.u) {
+				return true
+			}
+		}
+		return false
+	}
 	// whyNoGrant explains (for the signature) a grant-path success the model cannot justify.
 	whyNoGrant := func(uk c05UK) string {
 		if !enabled {
@@ -409,17 +424,17 @@ func c05Run(c c05Case, v *vlib.Verdict) {
 	// code promises about it. Returns false after a violation.
 	consume := func(step int, uk c05UK, actions []authgrants.Authgrant) bool {
 		if !enabled || grants[uk] == 0 {
-			v.Failf(whyNoGrant(uk), "step %d: (%s,K%d) admitted through authgrants; enabled=%v, model holds %d grants for the pair (all grants: %v)",
+			v.Failf(whyNoGrant(uk), "step %d: (%q,K%d) admitted through authgrants; enabled=%v, model holds %d grants for the pair (all grants: %v)",
 				step, uk.u, uk.k+1, enabled, grants[uk], grants)
 			return false
 		}
 		if len(actions) != grants[uk] {
-			v.Failf("C05:grant-list-mismatch", "step %d: login (%s,K%d) returned %d grants, %d were stored", step, uk.u, uk.k+1, len(actions), grants[uk])
+			v.Failf("C05:grant-list-mismatch", "step %d: login (%q,K%d) returned %d grants, %d were stored", step, uk.u, uk.k+1, len(actions), grants[uk])
 			return false
 		}
 		for _, a := range actions {
 			if a.DelegateCert.PublicKey != verifAuthzKey(uk.k) {
-				v.Failf("C05:grant-for-other-user-or-key", "step %d: login (%s,K%d) returned a grant naming another key", step, uk.u, uk.k+1)
+				v.Failf("C05:grant-for-other-user-or-key", "step %d: login (%q,K%d) returned a grant naming another key", step, uk.u, uk.k+1)
 				return false
 			}
 		}
@@ -435,7 +450,7 @@ func c05Run(c c05Case, v *vlib.Verdict) {
 	}
 
 	for i, op := range c.Ops {
-		user := verifAuthzUsers[op.User]
+		user := verifAuthzUsers[op.User%len(verifAuthzUsers)]
 		uk := c05UK{user, op.Key}
 		key := verifAuthzKey(op.Key)
 		switch op.Op {
@@ -470,6 +485,10 @@ func c05Run(c c05Case, v *vlib.Verdict) {
 			if consumed[uk] && grants[uk] == 0 {
 				nt = true
 			}
+			if nearGrant(uk) {
+				labels["grantlogin-as-near-collision-of-a-granted-user"] = true
+				nt = true
+			}
 			if err == nil {
 				labels["grantlogin:granted"] = true
 				if !consume(i, uk, actions) {
@@ -478,7 +497,7 @@ func c05Run(c c05Case, v *vlib.Verdict) {
 			} else {
 				labels["grantlogin:refused"] = true
 				if live {
-					v.Failf("C05:refused-live-grant", "step %d: AuthorizeKeyAuthGrant(%s,K%d) failed (%v) although %d grants are stored and authgrants are enabled", i, user, op.Key+1, err, grants[uk])
+					v.Failf("C05:refused-live-grant", "step %d: AuthorizeKeyAuthGrant(%q,K%d) failed (%v) although %d grants are stored and authgrants are enabled", i, user, op.Key+1, err, grants[uk])
 					return
 				}
 			}
@@ -509,6 +528,14 @@ func c05Run(c c05Case, v *vlib.Verdict) {
 					labels["derived-key:not-a-fixture-key"] = true
 				}
 			}
+			if nearGrant(uk) {
+				labels["login-as-near-collision-of-a-granted-user"] = true
+			}
+			for o, of := range files {
+				if verifAuthzNear(o, user) && of.entries[key] {
+					labels["login-as-near-collision-of-a-user-listing-the-key"] = true
+				}
+			}
 			f := files[user]
 			st := f.state(user == "ghost", key)
 			listed := st == "listed" || st == "listed+malformed"
@@ -531,7 +558,7 @@ func c05Run(c c05Case, v *vlib.Verdict) {
 			switch {
 			case granted && !viaGrant:
 				if !listed && !live {
-					v.Failf("C05:granted-without-entry-or-grant:"+st, "step %d: AuthorizeKey(%s,%s)=nil; file state %q (%d well-formed entries, %d malformed lines), no live grant (enabled=%v, grants=%d)",
+					v.Failf("C05:granted-without-entry-or-grant:"+st, "step %d: AuthorizeKey(%q,%s)=nil; file state %q (%d well-formed entries, %d malformed lines), no live grant (enabled=%v, grants=%d)",
 						i, user, kname, st, len(f.entries), f.malformed, enabled, grants[uk])
 					return
 				}
@@ -544,11 +571,11 @@ func c05Run(c c05Case, v *vlib.Verdict) {
 				}
 			default:
 				if st == "listed" && f.canonical {
-					v.Failf("C05:refused-listed-key", "step %d: login (%s,%s) refused although the file consists solely of canonical entries and lists the key", i, user, kname)
+					v.Failf("C05:refused-listed-key", "step %d: login (%q,%s) refused although the file consists solely of canonical entries and lists the key", i, user, kname)
 					return
 				}
 				if live {
-					v.Failf("C05:refused-live-grant", "step %d: login (%s,%s) refused although %d grants are stored and authgrants are enabled", i, user, kname, grants[uk])
+					v.Failf("C05:refused-live-grant", "step %d: login (%q,%s) refused although %d grants are stored and authgrants are enabled", i, user, kname, grants[uk])
 					return
 				}
 			}
@@ -570,7 +597,7 @@ func c05Run(c c05Case, v *vlib.Verdict) {
 					return
 				}
 			} else if grants[uk] > 0 {
-				v.Failf("C05:refused-live-grant", "final drain: %d stored grants for (%s,K%d) are gone", grants[uk], user, k+1)
+				v.Failf("C05:refused-live-grant", "final drain: %d stored grants for (%q,K%d) are gone", grants[uk], user, k+1)
 				return
 			}
 		}
@@ -622,13 +649,13 @@ var c05OpWeights = []string{
 // users and keys are drawn with a bias so that operations of one history collide
 // on the same (user, key) pair often; every pair is still reachable.
 var (
-	c05UserBias = []int{0, 0, 0, 0, 1, 1, 1, 2, 2}
+	c05UserBias = []int{0, 0, 0, 0, 1, 1, 1, 2, 2, 3} // index into the cast of the history (verifAuthzGenCast)
 	c05KeyBias  = []int{0, 0, 0, 0, 1, 1, 1, 2, 2, 3}
 )
 
-func c05GenOp(t *rapid.T) c05Op {
+func c05GenOp(t *rapid.T, cast []int) c05Op {
 	op := c05Op{Op: rapid.SampledFrom(c05OpWeights).Draw(t, "op")}
-	op.User = rapid.SampledFrom(c05UserBias).Draw(t, "user")
+	op.User = cast[rapid.SampledFrom(c05UserBias).Draw(t, "user")%len(cast)]
 	switch op.Op {
 	case "write":
 		op.Lines = rapid.SliceOfN(rapid.Custom(c05GenLine), 0, 5).Draw(t, "lines")
@@ -658,9 +685,10 @@ func c05GenOp(t *rapid.T) c05Op {
 }
 
 func c05Gen(t *rapid.T) c05Case {
+	cast := verifAuthzGenCast(t)
 	return c05Case{
 		Enabled: rapid.IntRange(0, 3).Draw(t, "enabled") != 0,
-		Ops:     rapid.SliceOfN(rapid.Custom(c05GenOp), 2, 24).Draw(t, "ops"),
+		Ops:     rapid.SliceOfN(rapid.Custom(func(t *rapid.T) c05Op { return c05GenOp(t, cast) }), 2, 24).Draw(t, "ops"),
 	}
 }
 
